@@ -224,7 +224,9 @@ func oracleParse(data []byte) readerInfo {
 	var title, first string
 	p2, m2, t2 := watched(loaderTimeout, func() {
 		cl := &countingListener{DefaultErrorListener: antlr.NewDefaultErrorListener()}
-		lx := parser.NewYarnSpinnerLexer(antlr.NewInputStream(string(data)))
+		// the generated lexer under the specification's indentation rule (reflexer.go), not
+		// under the library's own indentation layer
+		lx := newRefIndentLexer(string(data))
 		lx.RemoveErrorListeners()
 		lx.AddErrorListener(cl)
 		ts := antlr.NewCommonTokenStream(lx, antlr.LexerDefaultTokenChannel)
